@@ -160,3 +160,10 @@ Example C06_nonvacuous :
       /\ nout s' = 9 /\ cstate s' = ST_AWAITING).
 Proof. exact nonvacuous. Qed.
 Print Assumptions C06_nonvacuous.
+
+(* the model's noreply_msgs is the code's literal (regenerated by gen_const.py) *)
+From AF Require Import Lemmas.ConstTieL.
+From AFGen Require Import GenConst.
+Theorem C06_noreply_set_is_code : same_set Resend.noreply_msgs noreply_values = true.
+Proof. exact noreply_set_is_code. Qed.
+Print Assumptions C06_noreply_set_is_code.
